@@ -29,6 +29,23 @@ class Twin:
     count: int = 1
 
 
+def multi(rel: str, edits: list[tuple[str, str]]) -> tuple[str, str]:
+    """(old, new) for a twin that needs several coordinated edits of one file: the anchor is the whole current text of the
+    file (so the twin is skipped, not mis-applied, once any of the edited places has changed)."""
+    from .index import repo_root
+
+    try:
+        src = (repo_root() / rel).read_text(encoding="utf-8")
+    except OSError:
+        return "\0file missing", ""
+    out = src
+    for a, b in edits:
+        if a not in out:
+            return "\0anchor missing: " + a[:40], ""
+        out = out.replace(a, b, 1)
+    return src, out
+
+
 def _violation_keys(mod, repo: Repo, pid: str) -> tuple[set[str], str | None]:
     chk = Check(pid, repo, "quick", 0, quiet=True, write=False)
     try:
